@@ -1,6 +1,8 @@
 package mpegts
 
 import (
+	"bytes"
+
 	"github.com/cnotch/ipchub/av/codec"
 	"github.com/cnotch/ipchub/av/codec/aac"
 	"github.com/cnotch/ipchub/zzverif/symapi"
@@ -447,5 +449,30 @@ func VerifTSMuxerLateParamSets() {
 	}
 	m.Close()
 	symapi.Settle()
+	symapi.Reach("end")
+}
+
+type verifCountSink struct{ n int }
+
+func (s *verifCountSink) Write(p []byte) (int, error) { s.n += len(p); return len(p), nil }
+
+// VerifTSPooledBufferOwnership (C07 / C09): after a frame of any size class - up to the
+// multi-megabyte access unit a hostile publisher's fragment chain reassembles to - the
+// writer's pooled scratch buffers are each owned by one user: two users taking a buffer from
+// the pool never get the same one (which would splice one stream's bytes into another's
+// segments).
+func VerifTSPooledBufferOwnership() {
+	size := []int{1000, 70000, 4<<20 + 1}[symapi.Choose("frameSize", 3)]
+	sink := &verifCountSink{}
+	w, err := NewWriter(sink)
+	symapi.Assert(err == nil, "writer-created")
+	payload := make([]byte, size)
+	payload[0], payload[size-1] = 0x65, 0x80
+	f := &Frame{Pid: tsVideoPid, StreamID: tsVideoAvc, Dts: 90000, Pts: 90000, Payload: payload, key: true}
+	symapi.Assert(w.WriteMpegtsFrame(f) == nil, "huge-frame-written")
+	symapi.Assert(sink.n%188 == 0 && sink.n >= size, "whole-ts-packets-carrying-the-frame")
+	b1 := buffers.Get().(*bytes.Buffer)
+	b2 := buffers.Get().(*bytes.Buffer)
+	symapi.Assert(b1 != b2, "pooled-buffer-owned-by-one-user-at-a-time")
 	symapi.Reach("end")
 }
